@@ -94,6 +94,10 @@ func readPointsFromIO(data io.ReadCloser, points chan<- edge.PointMessage, preci
 		if err != nil {
 			return err
 		}
+		if len(mps) == 0 {
+			// The line is empty, all white space or a comment.
+			return fmt.Errorf("invalid replay file format, expected a point")
+		}
 		mp := mps[0]
 
 		mpfields, err := mp.Fields()
